@@ -58,6 +58,36 @@ fn gamma(a: Decimal) -> Option<Decimal> {
         .checked_mul(compute_pow)
 }
 
+/// Square root by Heron's iteration. `Decimal::sqrt` runs the same iteration until
+/// two successive values are equal and panics when they keep alternating between
+/// two neighbours instead (sqrt(4.0000000000000000000000000003)); this one stops there.
+fn sqrt(x: Decimal) -> Option<Decimal> {
+    if x.is_zero() {
+        return Some(Decimal::ZERO);
+    }
+    if x.is_sign_negative() {
+        return None;
+    }
+    let two = Decimal::new(2, 0);
+    let mut result = x / two;
+    if result.is_zero() {
+        result = x;
+    }
+    let mut previous = result;
+    for _ in 0..256 {
+        #[cfg(feature = "verif_hooks")]
+        crate::verif_hooks::tick();
+        let next = result.checked_add(x.checked_div(result)?)?.checked_div(two)?;
+        if next == result || next == previous {
+            // converged, or alternating between two neighbours: keep the smaller one
+            return Some(next.min(result));
+        }
+        previous = result;
+        result = next;
+    }
+    Some(result)
+}
+
 /// Principal branch of the Lambert W function by Halley's iteration, run until
 /// it converges (at most 64 steps).
 fn lambert_w(x: Decimal) -> Option<Decimal> {
@@ -72,7 +102,7 @@ fn lambert_w(x: Decimal) -> Option<Decimal> {
         let l = x.checked_ln()?;
         l - l.checked_ln()?
     } else if x < Decimal::new(-25, 2) {
-        let p = (two * (Decimal::E * x + one)).max(Decimal::ZERO).sqrt()?;
+        let p = sqrt((two * (Decimal::E * x + one)).max(Decimal::ZERO))?;
         -one + p - p * p / Decimal::new(3, 0) + Decimal::new(11, 0) * p * p * p / Decimal::new(72, 0)
     } else {
         (one + x).checked_ln()?
@@ -229,7 +259,7 @@ pub fn eval(expr: Node) -> Result<Decimal, Box<dyn error::Error>> {
                 // also covers the negative zero that -0 or -(1-1) produce
                 return Ok(Decimal::ZERO);
             }
-            match sub_result.sqrt() {
+            match sqrt(sub_result) {
                 Some(result) => Ok(result),
                 None => Err("Unable to compute the square root of negative number".into()),
             }
